@@ -10,7 +10,6 @@ pub struct Integrity;
 pub struct JsonValue;
 pub struct OneshotSender;
 #[derive(Debug)] pub struct SendError;
-#[derive(Debug)] pub struct RecvError;
 impl PartialOrd for Scru128Id {
     fn partial_cmp(&self, o: &Self) -> Option<std::cmp::Ordering> { self.0.partial_cmp(&o.0) }
     fn le(&self, o: &Self) -> bool { self.0 <= o.0 }
@@ -24,7 +23,9 @@ verus! {
 #[verifier::external_type_specification] #[verifier::external_body] pub struct ExJsonValue(JsonValue);
 #[verifier::external_type_specification] #[verifier::external_body] pub struct ExOneshotSender(OneshotSender);
 #[verifier::external_type_specification] #[verifier::external_body] pub struct ExSendError(SendError);
-#[verifier::external_type_specification] #[verifier::external_body] pub struct ExRecvError(RecvError);
+pub mod broadcast { pub mod error { pub enum RecvError { Closed, Lagged(u64) } } }
+pub use broadcast::error::RecvError;
+
 
 // Scru128Id order/equality = order/equality of the 128-bit value (K1)
 impl vstd::std_specs::cmp::PartialEqSpecImpl for Scru128Id {
@@ -79,6 +80,7 @@ pub enum RxEv {
     Done(Option<Scru128Id>, usize),              // history -> live hand-off
     Gc(GCTask),
     Recv(Frame),                                 // a frame taken from the broadcast subscription
+    Lagged(u64),                                 // the subscription fell behind: that many frames were dropped
 }
 pub struct Rx {
     pub ghost log: Seq<RxEv>,
@@ -100,6 +102,7 @@ pub open spec fn recv_of(log: Seq<RxEv>) -> Seq<Frame> decreases log.len() {
         match log.last() { RxEv::Recv(f) => recv_of(log.drop_last()).push(f), _ => recv_of(log.drop_last()) }
     }
 }
+pub open spec fn has_lag(log: Seq<RxEv>) -> bool { exists|i: int| 0 <= i < log.len() && #[trigger] log[i] is Lagged }
 pub open spec fn has_done(log: Seq<RxEv>) -> bool { exists|i: int| 0 <= i < log.len() && #[trigger] log[i] is Done }
 pub open spec fn index_of(log: Seq<RxEv>, e: RxEv) -> int { choose|i: int| 0 <= i < log.len() && log[i] == e }
 
@@ -144,7 +147,9 @@ impl BroadcastReceiver {
         ensures final(rx).send_errs == old(rx).send_errs,
             r matches Ok(f) ==> old(rx).bcast.len() > 0 && f == old(rx).bcast[0] && final(rx).bcast == old(rx).bcast.drop_first()
                 && final(rx).log == old(rx).log.push(RxEv::Recv(f)),
-            r is Err ==> final(rx).log == old(rx).log && final(rx).bcast == old(rx).bcast,
+            r matches Err(RecvError::Closed) ==> final(rx).log == old(rx).log && final(rx).bcast == old(rx).bcast,
+            r matches Err(RecvError::Lagged(n)) ==> final(rx).log == old(rx).log.push(RxEv::Lagged(n)) && n >= 1 && n <= old(rx).bcast.len()
+                && final(rx).bcast == old(rx).bcast.subrange(n as int, old(rx).bcast.len() as int),
     { unimplemented!() }
 }
 pub mod scru128 {
@@ -316,9 +321,9 @@ pub open spec fn live_limit_post(rx0: &Rx, rx1: &Rx, limit: Option<usize>, done:
 //@@ through_close
 //@@ inner
 //@@ strip: await
-//@@ before?: { if let Some(context_id) = options.context_id
+//@@ loop_spec: while let Ok(frame) =
     invariant_except_break
-        rx.send_errs == old(rx).send_errs,
+        rx.send_errs == old(rx).send_errs, !has_lag(rx.log), //# read.live.lagged_ends_stream
         sn =~= wanted_of(g, options.context_id, last_id), //# read.live.forwards_exactly_wanted_in_order
         limit matches Some(l) ==> count0 + sn.len() == count, //# read.live.counts_deliveries
         limit matches Some(l) ==> (count < l || (count == l && count0 == l && sn.len() == 0)), //# read.live.limit_exact
@@ -326,7 +331,11 @@ pub open spec fn live_limit_post(rx0: &Rx, rx1: &Rx, limit: Option<usize>, done:
         recv_of(rx.log) =~= recv_of(old(rx).log) + g, sent_of(rx.log) =~= sent_of(old(rx).log) + sn,
         limit matches Some(l) ==> count0 <= l, count0 < usize::MAX, count0 == (match done_rx { Some(Ok(p)) => p.1 as int, _ => 0 }),
         old(rx).send_errs <= rx.send_errs,
+        // (instances of lemma_*_push needed where the loop condition is evaluated)
+        forall|l: Seq<RxEv>, n: u64| sent_of(#[trigger] l.push(RxEv::Lagged(n))) == sent_of(l) && recv_of(l.push(RxEv::Lagged(n))) == recv_of(l)
+            && has_lag(l.push(RxEv::Lagged(n))),
     ensures
+        has_lag(rx.log) ==> rx.log.last() is Lagged, //# read.live.lagged_ends_stream
         rx.send_errs == old(rx).send_errs ==> sn =~= wanted_of(g, options.context_id, last_id),
         rx.send_errs > old(rx).send_errs ==> g.len() > 0 && sn =~= wanted_of(g.drop_last(), options.context_id, last_id),
         limit matches Some(l) ==> (count0 + sn.len() <= l || (count0 == l && sn.len() <= 1)),
@@ -340,8 +349,8 @@ pub open spec fn live_limit_post(rx0: &Rx, rx1: &Rx, limit: Option<usize>, done:
         assert(recv_of(rx.log) + g =~= recv_of(rx.log));
         assert(sent_of(rx.log) + sn =~= sent_of(rx.log));
     }
-//@@ before_stmt?: if let Some(context_id) = options.context_id
-    broadcast use lemma_sent_push, lemma_recv_push;
+//@@ loop_top: while let Ok(frame) =
+    broadcast use lemma_sent_push, lemma_recv_push, lemma_lag_push;
     proof {
         let g0 = g;
         g = g.push(frame);
@@ -354,20 +363,22 @@ pub open spec fn live_limit_post(rx0: &Rx, rx1: &Rx, limit: Option<usize>, done:
 //@@ header
 fn read_live(options: ReadOptions, limit: Option<usize>, tx: FrameSender, broadcast_rx: BroadcastReceiver,
              done_rx: Option<Result<(Option<Scru128Id>, usize), RecvError>>, Tracked(rx): Tracked<&mut Rx>)
-    requires
+    requires !has_lag(old(rx).log),
         // hand-off precondition: history never reports more deliveries than the limit (its own postcondition), and
         // the count fits (it counts frames that were in memory)
         done_rx matches Some(Ok(p)) ==> p.1 < usize::MAX && (limit matches Some(l) ==> p.1 <= l),
         limit matches Some(l) ==> l >= 1,   // C11 quantifies over n >= 1
     ensures
         live_post(old(rx), final(rx), options, limit, done_rx), //# read.live.post
+        // a follower that fell behind is cut off: once the subscription reports a lag nothing further is forwarded (C11)
+        has_lag(final(rx).log) ==> final(rx).log.last() is Lagged, //# read.live.lagged_ends_stream
         // C11 "limit is exact": the composition history -> live must never exceed the limit. Holds whenever history
         // delivered fewer than `limit` frames ...
         (done_rx matches Some(Ok(p)) && limit matches Some(l) && p.1 == l) || live_limit_post(old(rx), final(rx), limit, done_rx), //# read.live.limit_exact
         // ... and must also hold when history delivered exactly `limit` frames
         live_limit_post(old(rx), final(rx), limit, done_rx), //# read.live.limit_exact_handoff
 {
-    broadcast use lemma_sent_push, lemma_recv_push;
+    broadcast use lemma_sent_push, lemma_recv_push, lemma_lag_push;
     proof {
         assert(new_sent(rx, rx) =~= Seq::<Frame>::empty());
         assert(new_recv(rx, rx) =~= Seq::<Frame>::empty());
@@ -507,6 +518,14 @@ pub broadcast proof fn lemma_gc_push(log: Seq<RxEv>, e: RxEv)
 pub broadcast proof fn lemma_recv_push(log: Seq<RxEv>, e: RxEv)
     ensures #[trigger] recv_of(log.push(e)) == (match e { RxEv::Recv(f) => recv_of(log).push(f), _ => recv_of(log) })
 { assert(log.push(e).drop_last() =~= log); }
+pub broadcast proof fn lemma_lag_push(log: Seq<RxEv>, e: RxEv)
+    ensures #[trigger] has_lag(log.push(e)) == (has_lag(log) || e is Lagged)
+{
+    let l2 = log.push(e);
+    if has_lag(log) { let i = choose|i: int| 0 <= i < log.len() && #[trigger] log[i] is Lagged; assert(l2[i] is Lagged); }
+    if e is Lagged { assert(l2[log.len() as int] is Lagged); }
+    if has_lag(l2) { let i = choose|i: int| 0 <= i < l2.len() && #[trigger] l2[i] is Lagged; if i < log.len() { assert(log[i] is Lagged); } }
+}
 pub broadcast proof fn lemma_done_push(log: Seq<RxEv>, e: RxEv)
     ensures #[trigger] has_done(log.push(e)) == (has_done(log) || e is Done)
 {
